@@ -116,9 +116,14 @@ def install_ipaddress(it):
 
     def wrap(fn):
         def m(it_, addr, *a, **k):
-            if isinstance(addr, PObj) and not addr.has_base or addr is None:
-                note("ipaddress", "ip_address(o)/ip_network(o) raise ValueError for any object that is not an int, str or bytes")
-                raise PyRaise(ValueError(f"{addr!r} does not appear to be an IPv4 or IPv6 address"))
+            if addr is None or isinstance(addr, PObj) and not addr.has_base:
+                note("ipaddress", "ip_address(o)/ip_network(o) parse str(o) for an object that is not an int or bytes (ValueError when that text is not an address, e.g. a default object repr)")
+                from .strings import str_of
+                from ..values import PFunc
+
+                if addr is None or not isinstance(addr.cls.find("__str__"), PFunc):
+                    raise PyRaise(ValueError(f"{addr!r} does not appear to be an IPv4 or IPv6 address"))
+                addr = str_of(it_, addr)
             return it_.call_native(fn, [addr] + list(a), k)
 
         return m
